@@ -16,11 +16,54 @@ CHECKS = {
             "DESIGN.md section 3, C15"),
 }
 
+CHECKS["C07"] = ("fault_enumeration",
+    "exhaustive crash-point and torn-write enumeration (E4 file layer) combined with deviation-bounded exploration of skips and clock jumps on the real runner, with unique-token exactly-once accounting",
+    "For every scenario family (grids, rep_max 2..4 and 499/500/501/1001 around the 500-repetition save period, .pickle/.json, delete_partial_results on/off, restart with the same / raised rep_max / changed fixed value / changed unpacked values) EVERY placement of <=1 (thorough 2) crashes - before each _run_simulation call, before/after each open/mkdir/replace/remove/close and after EVERY byte prefix of each write - combined with <=1 skip and <=1 (2) clock jumps (forcing partial saves at arbitrary repetitions) is executed; after the final restart every variation must hold each durably saved or newly executed call token exactly once, with the requested repetition count, the final file must load, foreign partial results must be refused untouched.",
+    "Crash model = process kill (completed writes durable, open-truncate durable, arbitrary prefix of an interrupted write); power-loss reordering is not modelled because the library never calls fsync. Trusted: token decoding of the durable image by the harness.",
+    "DESIGN.md section 3, C07")
 CHECKS["C05"] = ("model_checking",
     "stateless deviation-bounded exploration (every placement of <=D non-default answers of the user's iteration) of the real SimulationRunner.simulate() against a reference interpreter",
     "For every configuration of a finite family (parameter grids with 0-3 unpacked parameters, rep_max 1..4(5), every Boolean stop predicate on the repetition index and thresholds on the merged result, modes all/single index/simulate twice) EVERY answer vector of the scripted _run_simulation with at most D deviations (value change or SkipThisOne; D=3/2/1 quick, 4/3/2 thorough by size) is executed to completion on the implementation; exact call log, repetition counts, merged values, update and skip counts and all look-ups by fixed values are compared with the reference interpreter of the documented loop.",
     "Trusted: the reference interpreter in models/runner_model.py (30 lines). Not covered: parameter lists with duplicate values, simulate_in_parallel (needs an ipyparallel cluster), answer vectors with more deviations than the bound.",
     "DESIGN.md section 3, C05")
+
+def _e1(pid, what, trusted, ref=None):
+    CHECKS[pid] = ("exploration",
+        "exhaustive enumeration of a stated finite product (configurations x deterministic input families) executed on the implementation against an independent reference",
+        what, trusted, ref or "DESIGN.md section 3, %s" % pid)
+
+_e1("C01", "Every modulator object of the family (BPSK, QPSK, PSK 2..2^10 x 8 offsets constructed and after setPhaseOffset, QAM 4..4^6) x every index 0..M-1 in 8 presentations x every invalid-index pattern x every constructed cardinality 0..4100 x a boundary-seeking sample family (each Voronoi-adjacent pair probed at +-delta for delta/dmin down to 1e-11, lattice, rays) is run through modulate/demodulate and compared with a brute-force nearest-point oracle with an explicit tie margin.",
+    "Trusted: brute-force argmin oracle and its tie margin (1e-12 dmin^2 + 64 eps d^2). Samples outside the stated family are not covered; exact ties are excluded by the property.")
+_e1("C03", "Every member of stated finite families of tap profiles (all ordered 1-3 tap tuples on a Ts/4 grid incl. unsorted/colliding), antenna shapes, directions, fading generators, input signals, ALL slice/index subcarrier selections for fft 4,5,8,12 and every history of <=3 consecutive transmissions on one channel object (TdlChannel, Su/SuMimo, Mu/MuMimo with path loss) is executed; outputs are compared with a nested-loop time-varying convolution / explicit DFT of the impulse response reported after the transmission.",
+    "Trusted: the nested-loop convolution and DFT oracles; Jakes phases are read back from the seeded generator objects for the sample-position relation. Continuous inputs outside the families are not covered.")
+_e1("C04", "Every scheme (Blast, MRC, MRT, SVD, GMD, Alamouti) x every shape Nt<=Nr<=4 x every {1,j,-1}/{0,+-1,+-j} small-entry matrix, generic members and nearly dependent members up to kappa 1e4 x block lengths: decode(H encode(d)) = d, transmit energy, ZF/MMSE defining equations and the MMSE->ZF limit are checked with condition-scaled tolerances.",
+    "Trusted: numpy SVD/QR in the oracle, tolerance constant c=1e3. Matrices outside the families / kappa > 1e4 are excluded and counted.")
+_e1("C09", "Every layout (K,n) of the stated set x channel family members (generic, weak user, weak antenna, nearly dependent) x powers x noise x external-interference rank/power x every stream-reduction metric and stream count: block-diagonality, per-user power, receive-filter inversion, reference water-filling, interference removal and metric-optimality of the chosen stream count are checked.",
+    "Trusted: QR-based null-space and water-filling reference in the check. Effective-throughput competitor uses the library's own theoretical PER (C16 territory), stated in the evidence.")
+_e1("C11", "Full product of channel class (plain / external interference) x antenna layouts x every Ns tuple in {1,2}^K x path loss x noise (None,0,0.1,2) x pe x IC/JP x generic-family members, through the channel object AND through IA solvers bound to it: every reported SINR, covariance matrix, dB value and capacity is compared with a scalar-sum first-principles computation from the raw matrices.",
+    "Trusted: pure-Python nested-loop SINR oracle. Setter-history coherence of the channel object is C08's subject, objects here are built fresh.")
+_e1("C12", "Every ordered gain tuple of length 1..4 (thorough 5) over a 6-value alphabet spanning 7 decades incl. ties x 5 total powers x 3 noise x 3 Es, switch-on boundary powers +-2^-40 and +-1 ulp, generic vectors up to length 16: non-negativity (exact), sum, KKT certificate, water-level consistency, reference allocation, simplex-grid and pairwise-transfer competitors, permutation equivariance.",
+    "Trusted: fsum-based reference water-filling and the competitor grid (a finite set of competitors, not all allocations; optimality is additionally certified by KKT).")
+_e1("C16", "Every modulator object (169 incl. after setPhaseOffset) x 181 SNR points in [-30,60] dB as arrays and three scalar types plus 60..200 dB x packet lengths: range, monotonicity, limits, BER<=SER<=log2(M) BER, PER and spectral-efficiency identities, and SER equal to the value implied by dmin / levels of the EMITTED symbols (exact for BPSK/QAM; PSK bound bracketed by Craig's integral computed with a self-validated 96-point Gauss-Legendre rule).",
+    "Trusted: libm erfc for Q, the Gauss-Legendre rule (validated on every run against closed forms). Probabilities compared with absolute floor 1e-15.")
+_e1("C18", "All 1178 sizes 12, 24, 25..1200 for the prime selection against a sieve; CAZAC relations by direct O(N^2) sums for roots {1,2,Nzc-1,seed} and for every root of every prime length; every cyclic extension branch; full Gram matrices of all shifts for every admissible size; CAZAC estimators over variants x lengths x shifts x tap counts x receive forms x interferer sets; LS estimator over exhaustive small pilot matrices.",
+    "Trusted: sieve, O(N^2) DFT. 'Kept taps' follows the implementation's reading (0..K). Quick-tier reductions are listed in the evidence assumptions.")
+_e1("C20", "Every kernel (projections, chordal distances, gmd, whitening, update_inv_sum_diag, peig/leig, least_right_singular_vectors, unit conversions) x shapes up to 4 (thorough 6) x exhaustive small-entry, generic, nearly dependent and repeated-eigenvalue families: defining identities with condition-scaled tolerances.",
+    "Trusted: numpy SVD/QR in oracles, c=1e3. Rank-deficient / ill-conditioned members are excluded and counted.")
+
+
+def _mc(pid, technique, what, trusted):
+    CHECKS[pid] = ("model_checking", technique, what, trusted, "DESIGN.md section 3, %s" % pid)
+
+_mc("C10", "explicit-state BFS over setter/read histories of real IA solver objects (whole-object digest as canonical key) + exhaustive product over solver configurations",
+    "E3: from six solved base states, every history up to depth 3 (thorough 4) over a 16-event alphabet (cache-populating reads, P=, set_precoders/set_receive_filters with arrays and lists, randomizeF, solve) is executed on the real solver; in every state all 8 views are compared with a reference model (F, P, W_H) and with a freshly built solver. E1: every solver x configuration x initialisation x power x iteration count of the stated tables: unit norm, power, identity, nulling (closed form), monotone leakage recomputed from public F and P.",
+    "Trusted: reference model of derived quantities, eigenvalue-based leakage oracle. Infeasible IA configurations and MaxSinr/MMSE without noise are outside the enumerated set (stated).")
+_mc("C13", "explicit-state BFS over parameter-setter histories of real path-loss objects with fresh-object differential",
+    "Per model family, every history up to depth 4 (thorough 6) of valid and out-of-range setter calls is replayed on a real object; in every state a 61-point log grid of distances plus boundary seekers is checked for monotonicity, dB/linear consistency, inverse queries, small-distance policy, closed forms, and equality with a freshly constructed object; out-of-range setters must raise and leave the object digest unchanged. Antenna gain on 721 angles.",
+    "Trusted: closed-form formulas re-derived in the check; tolerance 1e-9.")
+_mc("C14", "explicit-state BFS over generate/skip histories of real Jakes generators against an exact integer sample-position model",
+    "84 configurations (Fd x Ts x L x shape) x every generate(n)/skip(n) history up to depth 3 (thorough 5) with skips up to 1e10 samples: shape, Jakes sum-of-sinusoids value at the model position with the generator's own phases, differential against one-request generation from an identically seeded twin, Fd=0 constancy, magnitude bound.",
+    "Trusted: Jakes formula with phases read back from the object; value checks whose stated timing tolerance exceeds sqrt(L) are excluded and counted.")
 
 NOT_YET = {}
 
